@@ -232,6 +232,18 @@ pub fn run(ctx: &Ctx) -> PropResult {
             1 => rng.range_i64(-400_000, 400_000),
             _ => rng.range_i64(lo, hi),
         };
+        // one b in eight is a leap day (its anniversaries are clamped to Feb 28; "one day off" is then 1 March)
+        let b_day = if rng.chance(1, 8) {
+            let (y, _, _) = cal::civil_from_days(b_day);
+            let ly = (y.div_euclid(4)) * 4;
+            let ly = if ly % 100 == 0 && ly % 400 != 0 { ly + 4 } else { ly };
+            cal::days_from_civil(ly, 2, 29).clamp(lo, hi)
+        } else {
+            b_day
+        };
+        if dom(b_day) == 29 && cal::civil_from_days(b_day).1 == 2 {
+            rec.bin("anniversary/b-on-a-leap-day");
+        }
         let sign = if rng.chance(1, 2) { 1 } else { -1 };
         let k: i64 = sign * match rng.below(8) {
             0 => rng.range_i64(1, 30),
@@ -294,6 +306,27 @@ pub fn run(ctx: &Ctx) -> PropResult {
             }
         }
     }));
+    // rows of Date pairs around days that are a whole number of 400-year cycles (146 097 days) from the usual epochs
+    // of day-number algorithms — 0001-01-01, 0000-03-01, 1970-01-01, 2000-03-01 — over the whole range, both eras:
+    // where a hand-written floor division of a negative day number is one off (exact multiples only)
+    wls.push(Workload::cases("rows_at_cycle_aligned_days", ctx.count(1_500, 60_000), move |rec, _idx, rng| {
+        let epoch = *rng.pick(&[0i64, cal::days_from_civil(0, 3, 1), cal::DAYS_TO_1970, cal::days_from_civil(2000, 3, 1), cal::days_from_civil(1600, 3, 1)]);
+        let kmax = (cal::MAX_DAY - 200) / 146_097;
+        let k = match rng.below(3) { 0 => rng.range_i64(-12, 12), _ => rng.range_i64(-kmax, kmax) };
+        let c = (epoch + k * 146_097).clamp(cal::MIN_DAY + 100, cal::MAX_DAY - 100);
+        rec.bin(if c < 0 { "cycle-aligned/BC" } else { "cycle-aligned/AD" });
+        let lo = c - 34;
+        for b in [c - 31, c - 1, c, c + 1, c + 28] {
+            judge_row_dates(rec, lo, lo + 68, b);
+        }
+        // and as DateTimes with a time-of-day order opposite to the day order
+        let t1 = rng.range_i128(0, D - 1);
+        let t2 = rng.range_i128(0, D - 1);
+        for da in [-31i64, -30, -29, -28, -1, 1, 28, 29, 30, 31] {
+            judge_dt_pair(rec, (c + da, t1), (c, t2), "dt/cycle-aligned");
+            judge_dt_pair(rec, (c, t1), (c + da, t2), "dt/cycle-aligned");
+        }
+    }));
     // every case on a brand-new thread: the pair is the first thing that thread ever asks (per-thread memo state empty)
     wls.push(Workload::cases("fresh_thread_first_pair", ctx.count(1_500, 40_000), move |rec, idx, rng| {
         let b_day = match rng.below(4) {
@@ -317,18 +350,20 @@ pub fn run(ctx: &Ctx) -> PropResult {
         let a_day = if idx % 2 == 0 { rng.range_i64(cal::MIN_DAY + 2, cal::MAX_DAY - 2) } else { (b_day + rng.range_i64(-200_000, 200_000)).clamp(cal::MIN_DAY + 2, cal::MAX_DAY - 2) };
         judge_dt_pair(rec, (a_day, rng.range_i128(0, D - 1)), (b_day, rng.range_i128(0, D - 1)), "dt/far-apart");
     }));
+    wls.push(Workload::cases("trait_dispatch_vs_method_syntax", ctx.count(8_000, 200_000), |rec, _, rng| super::ufcs::case(rec, rng, "C07")));
     let out = run_workloads(ctx, wls);
     let mut meta = PropMeta::default();
     meta.exhaustive = !quick;
     meta.rule = format!(
-        "{} ordered pairs of Dates inside three windows (2019-12-01…2024-03-31 with a leap day; −3-01-01…3-12-31 across the era boundary; 1899-06…1901-06 across a common century year){}: per earlier-date b every a ascending — value (model month shift, only when the earlier date's day of month ≤ 28), antisymmetry, monotonicity in a, years = trunc(months/12). DateTime pairs in the same windows with times {{00:00, equal, ±1 ns around b's time, random}} and far-apart random pairs over the whole range. Non-trivial = same-month, borrow, era-straddling and same-day pairs (Dates); every DateTime pair. Distinct by input hash. Fresh-thread workload: every pair is the first thing a brand-new thread asks (earlier date on 0001-01-01, ±1 day, leap days, range ends …). Offset::Local twins (pairs) for months_since / years_since, incl. anniversaries ± a few hours in real zones. DateTime pairs inside one second of the day with independently structured sub-second parts (digit groups 0/1/999/1000/999999/10^6…). Anniversary pairs at any distance over the whole range: a on b's day of the month k months away (k = 1…30, whole years, centuries, whole 400-year cycles, 2^j, anything up to the width of the range; sometimes one day off), times of day equal / ±1 ns / same second with another sub-second part / midnight / random; also as Dates.",
+        "{} ordered pairs of Dates inside three windows (2019-12-01…2024-03-31 with a leap day; −3-01-01…3-12-31 across the era boundary; 1899-06…1901-06 across a common century year){}: per earlier-date b every a ascending — value (model month shift, only when the earlier date's day of month ≤ 28), antisymmetry, monotonicity in a, years = trunc(months/12). DateTime pairs in the same windows with times {{00:00, equal, ±1 ns around b's time, random}} and far-apart random pairs over the whole range. Non-trivial = same-month, borrow, era-straddling and same-day pairs (Dates); every DateTime pair. Distinct by input hash. Fresh-thread workload: every pair is the first thing a brand-new thread asks (earlier date on 0001-01-01, ±1 day, leap days, range ends …). Offset::Local twins (pairs) for months_since / years_since, incl. anniversaries ± a few hours in real zones. DateTime pairs inside one second of the day with independently structured sub-second parts (digit groups 0/1/999/1000/999999/10^6…). Anniversary pairs at any distance over the whole range: a on b's day of the month k months away (k = 1…30, whole years, centuries, whole 400-year cycles, 2^j, anything up to the width of the range; sometimes one day off), times of day equal / ±1 ns / same second with another sub-second part / midnight / random; also as Dates; one b in eight on a leap day. Rows of Date pairs (and DateTime pairs) around days a whole number of 400-year cycles from the usual day-number epochs (0001-01-01, 0000-03-01, 1600-03-01, 1970-01-01, 2000-03-01), both eras.",
         if quick { "all" } else { "ALL" },
         if quick { " — quick: 400-day sub-windows around the leap day / era boundary" } else { "" }
     );
-    meta.required_bins = vec![
+    meta.rule.push_str(" The property's trait methods are also called through the trait (generic code / UFCS) and must agree with method syntax on the same operands (a type may grow inherent twins of its trait methods).");
+    meta.required_bins = vec!["trait-dispatch/compared", 
         "local-twin/judged", "local-twin/synthetic-fixed-zone", "local-twin/real-zone-with-transitions",
         "pair/same-day", "pair/straddles-era", "pair/same-month", "pair/same-year-day-borrow", "pair/year-borrow", "pair/multi-year",
-        "value-claim/checked", "value-claim/skipped-dom>28", "anniversary/whole-400-year-cycles", "anniversary/whole-years", "anniversary/months", "dt/anniversary/same-second-other-subsecond", "dt/anniversary/equal-time", "dt/equal-time", "dt/a-1ns-before-b-time", "dt/a-1ns-after-b-time", "dt/far-apart",
+        "value-claim/checked", "value-claim/skipped-dom>28", "anniversary/whole-400-year-cycles", "anniversary/b-on-a-leap-day", "cycle-aligned/BC", "cycle-aligned/AD", "anniversary/whole-years", "anniversary/months", "dt/anniversary/same-second-other-subsecond", "dt/anniversary/equal-time", "dt/equal-time", "dt/a-1ns-before-b-time", "dt/a-1ns-after-b-time", "dt/far-apart",
     ];
     meta.assumptions = vec!["month shift of the reference is the harness calendar model's (not the library's add_months)".into()];
     let _ = DateTime::default();
